@@ -158,7 +158,10 @@ func hashMsiDir(cdf *comdoc.ComDoc, parent *comdoc.DirEnt, d io.Writer) error {
 	sortMsiFiles(files)
 	for _, item := range files {
 		name := item.Name()
-		if name == msiDigitalSignature || name == msiDigitalSignatureEx {
+		if parent.Type == comdoc.DirRoot && (name == msiDigitalSignature || name == msiDigitalSignatureEx) {
+			// the signature streams live in the root storage; a stream of the
+			// same name further down is ordinary content (and is digested as
+			// such when signing from the tar stream)
 			continue
 		}
 		switch item.Type {
@@ -190,7 +193,10 @@ func prehashMsiDir(cdf *comdoc.ComDoc, parent *comdoc.DirEnt, d io.Writer) error
 	prehashMsiDirent(parent, d)
 	for _, item := range files {
 		name := item.Name()
-		if name == msiDigitalSignature || name == msiDigitalSignatureEx {
+		if parent.Type == comdoc.DirRoot && (name == msiDigitalSignature || name == msiDigitalSignatureEx) {
+			// the signature streams live in the root storage; a stream of the
+			// same name further down is ordinary content (and is digested as
+			// such when signing from the tar stream)
 			continue
 		}
 		switch item.Type {
